@@ -14,6 +14,7 @@ func init() { wk.Register("c04", c04) }
 
 // tryOpen runs the library's receive-side parser under recover.
 func c04try(pkt, key []byte) (m *messages.Encrypted, err error, pan bool, pm, st string) {
+	pkt = pkt[:len(pkt):len(pkt)] // what arrives from a transport has nothing behind it: capacity == length
 	pan, pm, st = wk.Guard(func() { m, err = messages.DeserializeEncrypted(pkt, key) })
 	return
 }
@@ -72,6 +73,22 @@ func c04(c *wk.Ctx) {
 			c04expectRefused(c, idx, rk2, key, nil, "rekey/other-key-right-id", "")
 			rk3 := append(append([]byte{}, mtp.AuthKeyID(other)...), pkt[8:]...) // right key, other id
 			c04expectRefused(c, idx, rk3, key, nil, "rekey/right-key-other-id", "")
+			// (c') the alterations composed: every short prefix (and every 16th longer one) of the re-keyed packets,
+			// and prefixes of the original whose key id has one bit flipped
+			flipped := append([]byte{}, pkt...)
+			flipped[r.Intn(8)] ^= 1 << uint(r.Intn(8))
+			for _, base := range [][]byte{rk, rk3, flipped} {
+				for n := 0; n < len(base); n++ {
+					if n > 72 && n%16 != 0 && n != len(base)-1 {
+						continue
+					}
+					cls := "ge24"
+					if n < 24 {
+						cls = "lt24"
+					}
+					c04expectRefused(c, idx, base[:n], key, nil, "truncate+key_id/"+cls, fmt.Sprintf("first %d bytes of a packet carrying another key id", n))
+				}
+			}
 			// (d) block-aligned garbage under the right key id
 			for g := 0; g < 8; g++ {
 				garbage := append(append([]byte{}, pkt[:24]...), rbytes(r, 16*(1+r.Intn(8)))...)
@@ -114,6 +131,12 @@ func c04(c *wk.Ctx) {
 					q := mtp.SealDeclared(key, in, 8, pad, d, over)
 					c04declared(c, idx, q, key, in, pad, d)
 				}
+			}
+			// (h) a session that has no auth key yet (key exchange in progress) holds no key any packet could match
+			for _, nokey := range [][]byte{nil, {}} {
+				c04expectRefused(c, idx, append(append([]byte{}, mtp.AuthKeyID(nil)...), rbytes(r, 16+16*(1+r.Intn(6)))...), nokey, nil, "no-key/key-id-of-the-empty-key", "")
+				c04expectRefused(c, idx, append(append([]byte{}, mtp.AuthKeyID(nil)...), pkt[8:]...), nokey, nil, "no-key/key-id-of-the-empty-key", "")
+				c04expectRefused(c, idx, pkt, nokey, nil, "no-key/any-packet", "")
 			}
 			// (g) unencrypted envelope
 			c04plain(c, idx, in)
